@@ -188,6 +188,8 @@ class SymEval(Flow):
                 common[k] = v
         c = Aff(common, min(a.c, b.c))
         ra, rb = a - c, b - c
+        if ra == rb:
+            return a        # both sides agree (only their descriptions differed)
         ka, kb = ra.key(), rb.key()
         kind = 'nn' if nonneg or (self._nn(ra) and self._nn(rb)) else 'phi'
         if _key_size(ka) + _key_size(kb) > 400:
@@ -577,6 +579,10 @@ class SymEval(Flow):
         if name in ('strip', 'lstrip', 'rstrip', 'lower'):
             return Seq(Aff.atom(('len', fresh('strip'))), 'str')
         if name == 'join':
+            a0 = e.args[0] if e.args else None
+            if isinstance(recv, Seq) and recv.n.is_const() and recv.n.c == 0 and isinstance(a0, ast.Name) \
+                    and isinstance(st.vars.get(a0.id + '#total'), Int):
+                return Seq(st.vars[a0.id + '#total'].a, 'str')
             return Seq(Aff.atom(('len', fresh('join'))), 'str')
         if name in ('split', 'splitlines', 'readlines'):
             return Seq(Aff.atom(('len', fresh('split'))), 'list')
@@ -681,6 +687,13 @@ class SymEval(Flow):
         if isinstance(target, ast.Name):
             self._bump(st, target.id)
             st.vars[target.id] = val
+            # a fresh empty list may become a list of strings that is joined later: track the
+            # sum of the lengths of its elements in the pseudo-variable <name>#total
+            if (isinstance(val, Seq) and val.kind == 'list' and val.n.is_const() and val.n.c == 0) \
+                    or (isinstance(val, Tup) and not val.items):
+                st.vars[target.id + '#total'] = Int(Aff.const(0))
+            else:
+                st.vars.pop(target.id + '#total', None)
         elif isinstance(target, (ast.Tuple, ast.List)):
             items = val.items if isinstance(val, Tup) and len(val.items) == len(target.elts) else None
             # evaluate keys of subscript targets before any of them is written
@@ -731,13 +744,24 @@ class SymEval(Flow):
                 cur = self.ev(tgt, st)
                 n = self.length(cur, st)
                 argv = [self.ev(a, st) for a in e.args]
+                if isinstance(tgt, ast.Name) and (tgt.id + '#total') in st.vars:
+                    tot = st.vars[tgt.id + '#total']
+                    a0 = argv[-1] if name == 'insert' else argv[0]
+                    la0 = self.length(a0, st) if a0 is not None else None
+                    if name in ('append', 'insert') and la0 is not None and isinstance(tot, Int):
+                        st.vars[tgt.id + '#total'] = Int(tot.a + la0)
+                    else:
+                        st.vars.pop(tgt.id + '#total', None)
                 if n is not None and (isinstance(cur, Seq) or isinstance(cur, Tup)):
                     if name == 'extend':
                         m = self.length(argv[0], st)
                         new = Seq(n + m, 'list') if m is not None else Obj(fresh('ext'))
                     else:
                         new = Seq(n + 1, 'list')
+                    keep = st.vars.get(tgt.id + '#total') if isinstance(tgt, ast.Name) else None
                     self.store(tgt, new, st) if isinstance(tgt, (ast.Name, ast.Attribute, ast.Subscript)) else None
+                    if keep is not None:
+                        st.vars[tgt.id + '#total'] = keep
                 return
         self.ev(e, st)
 
@@ -763,7 +787,8 @@ class SymEval(Flow):
                     st.facts = st.facts.add(rv - ra[0], ra[1] - 1 - rv)
                     val = Int(rv)
             else:
-                self.ev(it, st)
+                itv = self.ev(it, st)
+                val = self.for_item(s, itv, st) or val
         else:
             itv = self.ev(it, st)
             val = self.for_item(s, itv, st) or val
@@ -852,6 +877,13 @@ class SymEval(Flow):
         for v in intvars:
             if entry.facts.prove_ge0(entry.vars[v].a):
                 cands.append(('ge0', v))
+        # sum of element lengths of a list of strings == length of a companion sequence
+        totkeys = [a + '#total' for a in assigned if isinstance(entry.vars.get(a + '#total'), Int)]
+        akeys = set(akeys) | set(totkeys)
+        for tk in totkeys:
+            for b in sorted(seqvars):
+                if entry.facts.prove_eq(entry.vars[tk].a, self.length(entry.vars[b], entry)):
+                    cands.append(('eqint', tk, b))
         for k in entry.vars:
             if k in assigned or k in akeys:
                 cands.append(('same', k))
@@ -936,6 +968,8 @@ class SymEval(Flow):
     def cand_text(self, c):
         if c[0] == 'eqlen':
             return 'len(%s) == len(%s)' % (c[1], c[2])
+        if c[0] == 'eqint':
+            return 'sum of len(x) for x in %s == len(%s)' % (c[1].split('#')[0], c[2])
         if c[0] == 'ge0':
             return '%s >= 0' % c[1]
         if c[0] == 'same':
@@ -951,9 +985,18 @@ class SymEval(Flow):
             if c[0] == 'eqlen':
                 ga = groups.get(c[1]) or groups.get(c[2]) or ('len', fresh('inv'))
                 groups[c[1]] = groups[c[2]] = ga
+        intgroup = {}
+        for c in cands:
+            if c[0] == 'eqint':
+                ga = groups.get(c[2]) or ('len', fresh('inv'))
+                groups[c[2]] = ga
+                intgroup[c[1]] = ga
         same = {c[1] for c in cands if c[0] == 'same'}
         for k in list(st.vars):
             if k in same:
+                continue
+            if k in intgroup and (k in assigned or k in akeys):
+                st.vars[k] = Int(Aff.atom(intgroup[k]))
                 continue
             if k in assigned or k in akeys or any(_mentions(k, a) for a in assigned if k != a):
                 old = st.vars[k]
@@ -985,6 +1028,12 @@ class SymEval(Flow):
                 return False
             la, lb = self.length(a, st), self.length(b, st)
             return la is not None and lb is not None and st.facts.prove_eq(la, lb)
+        if c[0] == 'eqint':
+            a, b = st.vars.get(c[1]), st.vars.get(c[2])
+            if not isinstance(a, Int) or b is None:
+                return False
+            lb = self.length(b, st)
+            return lb is not None and st.facts.prove_eq(a.a, lb)
         if c[0] == 'ge0':
             v = st.vars.get(c[1])
             return isinstance(v, Int) and st.facts.prove_ge0(v.a)
